@@ -2,6 +2,8 @@
 """Regenerates MANIFEST.json from the table below (the claimed set must match checker/props.go)."""
 import json, re, subprocess
 claims = {
+ "C14": ("SSA store census for process-global state (EFFECT-2), per-invocation VM and immutable program (EFFECT-5), value immutability (EFFECT-6), engine-state clause (ENGINE)", "4", "No location shared between goroutines is written during compile/invoke: every in-place write reachable from the entries whose target is (or can be, through fields and function results) a package-level variable or init-time captured variable is mutex-guarded, atomic or frozen with a constant-evaluated side condition; the VM is created inside the invocation closure; program bytes/constants are not written by anything reachable from Interp; engine fields are written only behind the init flag. Schedules are not explored; absence of shared writes is the argument."),
+
  "C02": ("SIBLING-4/8 + BC-2/3/5/6 + KINDSW", "4", "No node kind, opcode or type kind falls into an unreachable branch; the stack-effect induction shows pops never exceed pushes for any compiled program; growth precedes every store; operand ranges are asserted not truncated; a function value is never called strictly without consulting its Lazy flag (today violated at OP_DYNAMIC_CALL: known finding). Exact partial-operation semantics of float->int conversions are run-time values and not decided."),
  "C04": ("SIBLING-2 normal-form equality of VM opcode twins + INTGUARD + SIG-2", "4", "Thin claim: static analysis does not compute values. Decided are three necessary conditions: the VM's inline re-implementation of each built-in is the same expression as the library's, integer rendering is guarded by IsInt with a 2^63 bound, every built-in is registered exactly once. IEEE arithmetic, tolerance, rune counting, set semantics, strtotime and literal decoding are not decided."),
  "C06": ("LAZY argument-builder discipline + SIBLING-3 ite-abstraction + BC-3 jump consistency", "4", "In each back end arguments are evaluated only in the not-Lazy branch and deferred otherwise, thunks are stateless single evaluations, the lazy built-ins force the condition once and then only the selected operand, the VM's conditional jumps make then/else exclusive, strict operands are popped back into source order."),
